@@ -81,6 +81,11 @@ def as_iter(st, v):
                                             z3.And(0 <= wit(x), wit(x) < s.n, z3.Select(s.arr, wit(x)) == x)),
                             patterns=[z3.Select(sv, x)]))
         return IterV(s.n, lambda kk: Val(et, z3.Select(s.arr, kk)))
+    if k == 'bytes':
+        # iterating bytes yields the byte values (ints)
+        return IterV(z3.Length(v.z), lambda kk: Val(T.INT, z3.StrToCode(z3.SubString(v.z, kk, 1))))
+    if k == 'str':
+        return IterV(z3.Length(v.z), lambda kk: Val(T.STR, z3.SubString(v.z, kk, 1)))
     raise Undecided('iteration over %r at line %s' % (v.t, st.lineno))
 
 
